@@ -650,6 +650,11 @@ def model_compare(ck, c, rec, sd, dd, stats):
         agree = all(abs(float(Fraction(a, b)) - W[j]) <= 1e-9 for j, (a, b) in mw)
         stats["idw_weight_formula_agree" if agree else "idw_weight_formula_differ"] = \
             stats.get("idw_weight_formula_agree" if agree else "idw_weight_formula_differ", 0) + 1
+        if not agree:
+            # the exact weights of the model (1/(d^p + 1e-6), normalised; read off the implementation through the
+            # one-hot rows) are part of the tie between model and code
+            return "destination %d: model weights %s, implementation %s" % (
+                i, [(j, float(Fraction(a, b))) for j, (a, b) in mw], [(s_, W[s_]) for s_ in isupp])
     return None
 
 
@@ -890,7 +895,7 @@ def main(ck):
         "error_branch_model_vs_impl": {"agree": stats.get("error_branch_agree", 0), "differ": stats.get("error_branch_differ", 0),
                                        "note": "implementation raised on an admissible input (reported above as a failure/known finding): does the model of the code as it stands take its error branch too? recorded only"},
         "idw_weight_formula": {"agree": stats.get("idw_weight_formula_agree", 0), "differ": stats.get("idw_weight_formula_differ", 0),
-                               "note": "agreement of 1/(d^p+1e-6) normalised with the implementation's weights (rel 1e-9); recorded, not demanded by the property"},
+                               "note": "exact model weights 1/(d^p+1e-6) normalised vs the implementation's weights read off through the one-hot rows (abs 1e-9); a difference is a correspondence failure"},
         "extraction_audit_cases": audit_n,
         "tolerances": {"near_tie": "distances within 2e-9*max(1,d) (degrees / chord) count as tied", "idw_value": "1e-9 relative to the neighbours' magnitude",
                        "nn_value": "exact (values are copied)", "const": "1e-12 relative"},
